@@ -65,6 +65,12 @@ func caseRefractMat(c *hlib.Ctx) {
 	n, src0 := unit(c), unit(c)
 	i := ior(c)
 	hasSpec := c.Rng.Intn(3) != 0
+	zeroR := c.Rng.Intn(12) == 0
+	if zeroR {
+		// reflectance exactly 0: equal indices at normal incidence
+		i, src0, hasSpec = 1, n, true
+		c.Stat("refract.reflectance-zero", 1)
+	}
 	rc, sc := color(c), V{}
 	if hasSpec {
 		sc = color(c)
@@ -72,7 +78,9 @@ func caseRefractMat(c *hlib.Ctx) {
 	mat := &render3d.RefractMaterial{IndexOfRefraction: i, RefractColor: rc, SpecularColor: sc}
 	head := fmt.Sprintf("%s %s", hx(i), b01(hasSpec))
 	u := uniform(c)
-	if c.Rng.Intn(3) == 0 {
+	if zeroR && c.Rng.Intn(2) == 0 {
+		u = 0
+	} else if c.Rng.Intn(3) == 0 {
 		// put u right at / next to the reflectance so both sides of the comparison are hit
 		r := render3d.VerifReflectAmount(mat, n.Scale(-1), src0)
 		k := math.Floor(r * (1 << 53))
@@ -108,15 +116,12 @@ func caseRefractMat(c *hlib.Ctx) {
 		if pi == 0 && dd != 0 {
 			c.Stat("refract.destdensity-nonzero-at-own-sample", 1)
 		}
-		// (u == R is the measure-zero boundary of the lobe choice `gen.Float64() > reflect`; see notes/C19.md)
-		rD := render3d.VerifReflectAmount(mat, n.Scale(-1), src0)
-		rS := render3d.VerifReflectAmount(mat, n, dest0)
-		if pi == 0 && dd == 0 && !(hasSpec && u == rD) {
+		if pi == 0 && dd == 0 {
 			// the sampler produced a direction its own density calls impossible
 			c.PropFail("prop:c19/refract-zero-density-at-own-sample",
 				fmt.Sprintf("ior=%v hasSpec=%v normal=%v source=%v u=%v dest=%v DestDensity=0", i, hasSpec, n, src0, u, dest))
 		}
-		if pi == 1 && sd == 0 && !(hasSpec && u2 == rS) {
+		if pi == 1 && sd == 0 {
 			c.PropFail("prop:c19/refract-zero-density-at-own-sample",
 				fmt.Sprintf("ior=%v hasSpec=%v normal=%v dest=%v u=%v source=%v SourceDensity=0", i, hasSpec, n, dest0, u2, src))
 		}
@@ -310,6 +315,18 @@ func caseHG(c *hlib.Ctx) {
 		c.Emit(fmt.Sprintf("c19 hgdens %s %s %s %s %s", consts(), hx(g0), hv(sv), hv(dest), hx(p)),
 			hx(divisor)+" "+hx(mat.SourceDensity(V{}, sv, dest)))
 	}
+	// BSDF (with and without the normal-cosine cancellation)
+	for _, ign := range []bool{true, false} {
+		m2 := &render3d.HGMaterial{G: g0, ScatterColor: mat.ScatterColor, IgnoreNormals: ign}
+		nn, sv := unit(c), unit(c)
+		if c.Rng.Intn(5) == 0 {
+			sv, _ = nn.OrthoBasis() // source.normal == 0: the 1e-5 floor
+		}
+		cos := sv.Dot(dest)
+		p := math.Pow(1+g*g-2*g*cos, 3.0/2.0)
+		c.Emit(fmt.Sprintf("c19 hgbsdf %s %s %s %s %s %s %s %s", consts(), hx(g0), hv(m2.ScatterColor), b01(ign), hv(nn), hv(sv), hv(dest), hx(p)),
+			ov(m2.BSDF(nn, sv, dest)))
+	}
 	// validate (tolerance): the closed-form CDF of the density, evaluated at the sampled cosine, returns u
 	if finite(s) && math.Abs(g) < 0.99 && math.Abs(g) > 1e-3 {
 		cos := s.Dot(dest)
@@ -338,9 +355,15 @@ type stubMat struct {
 	id    float64
 	dens  float64 // source density
 	ddens float64 // destination density
+	bsdf  V
 }
 
-func (s *stubMat) BSDF(normal, source, dest V) render3d.Color { return V{} }
+func (s *stubMat) BSDF(normal, source, dest V) render3d.Color {
+	if normal == jN && source == jS && dest == jD {
+		return s.bsdf
+	}
+	return model3d.Ones(9999)
+}
 func (s *stubMat) SampleSource(gen *rand.Rand, normal, dest V) V {
 	if normal == jN && (dest == jD || dest == jS.Scale(-1)) {
 		return model3d.XYZ(s.id, 0, 0)
@@ -388,6 +411,7 @@ func caseJoinedMat(c *hlib.Ctx) {
 	dens := make([]float64, k)
 	ddens := make([]float64, k)
 	mats := make([]render3d.Material, k)
+	var bsdfs []string
 	var u float64
 	if exact {
 		// dyadic: sixteenths summing to one (zeros allowed)
@@ -423,7 +447,8 @@ func caseJoinedMat(c *hlib.Ctx) {
 		u = uniform(c)
 	}
 	for i := range mats {
-		sm := stubMat{id: float64(i + 1), dens: dens[i], ddens: ddens[i]}
+		sm := stubMat{id: float64(i + 1), dens: dens[i], ddens: ddens[i], bsdf: color(c)}
+		bsdfs = append(bsdfs, hv(sm.bsdf))
 		if c.Rng.Intn(3) == 0 {
 			mats[i] = &stubAsym{sm}
 			c.Stat("joinedmat.asym-lobe", 1)
@@ -432,6 +457,7 @@ func caseJoinedMat(c *hlib.Ctx) {
 		}
 	}
 	jm := &render3d.JoinedMaterial{Materials: mats, Probs: probs}
+	c.Emit(fmt.Sprintf("c19 jbsdf %d %s", k, strings.Join(bsdfs, " ")), ov(jm.BSDF(jN, jS, jD)))
 	g1, _ := gen(rawU(u))
 	idx := int(jm.SampleSource(g1, jN, jD).X) - 1
 	g2, _ := gen(rawU(u))
@@ -462,7 +488,11 @@ func caseJoinedMat(c *hlib.Ctx) {
 func caseFocus(c *hlib.Ctx) {
 	center := point(c, 3)
 	r := radius(c)
+	focus := c.Rng.Intn(5) != 0
 	fp := &render3d.SphereFocusPoint{Center: center, Radius: r}
+	if !focus || c.Rng.Intn(4) == 0 {
+		fp.MaterialFilter = func(render3d.Material) bool { return focus }
+	}
 	var p V
 	if c.Rng.Intn(5) == 0 {
 		p = center.Add(unit(c).Scale(r * c.Rng.Float64())) // inside
@@ -473,6 +503,9 @@ func caseFocus(c *hlib.Ctx) {
 	}
 	if p == center {
 		return
+	}
+	if !focus {
+		c.Stat("focus.filtered-out", 1)
 	}
 	minCos, dir := render3d.VerifFocusInfo(fp, p)
 	c.Emit(fmt.Sprintf("c19 finfo %s %s %s", hv(center), hx(r), hv(p)), hx(minCos)+" "+ov(dir))
@@ -490,11 +523,50 @@ func caseFocus(c *hlib.Ctx) {
 	}
 	mat := &render3d.LambertMaterial{}
 	n := unit(c)
-	for _, sv := range []V{s, unit(c), dir} {
+	// the public sampler: inside the sphere / filtered out it must be the material's own sampler
+	g3, _ := gen(rawU(u), rawU(u2))
+	fs := fp.SampleFocus(g3, mat, p, n, V{})
+	c.Emit(fmt.Sprintf("c19 fsamp %s %s %s %s %s %s %s %s %s %s", hv(center), hx(r), hv(p), b01(focus), hv(n), hx(u),
+		hx(math.Cos(lat)), hx(math.Sin(lat)), hx(cs), hx(sn)), ov(fs))
+	for _, sv := range []V{s, fs, unit(c), dir} {
 		if !finite(sv) {
 			continue
 		}
 		c.Emit(fmt.Sprintf("c19 audens %s %s %s", hx(minCos), hv(dir), hv(sv)), hx(render3d.VerifDensityAroundUniform(minCos, dir, sv)))
-		c.Emit(fmt.Sprintf("c19 fdens %s %s %s %s %s", hv(center), hx(r), hv(p), hv(n), hv(sv)), hx(fp.FocusDensity(mat, p, n, sv, V{})))
+		c.Emit(fmt.Sprintf("c19 fdens %s %s %s %s %s %s", hv(center), hx(r), hv(p), b01(focus), hv(n), hv(sv)), hx(fp.FocusDensity(mat, p, n, sv, V{})))
+	}
+	if finite(fs) && fp.FocusDensity(mat, p, n, fs, V{}) == 0 && u != 0 && u < 1-1e-9 { // (u -> 1 is the rim of the cap: rounding decides the side)
+		c.PropFail("prop:c19/focus-zero-density-at-own-sample", fmt.Sprintf("center=%v radius=%v point=%v focus=%v normal=%v draws=(%v,%v) sample=%v", center, r, p, focus, n, u, u2, fs))
+	}
+
+	// PhongFocusPoint
+	alpha := alphaVal(c)
+	target := point(c, 3)
+	pp := point(c, 3)
+	if c.Rng.Intn(8) == 0 {
+		pp = target
+		c.Stat("phongfocus.point==target", 1)
+	}
+	pfocus := c.Rng.Intn(5) != 0
+	pf := &render3d.PhongFocusPoint{Target: target, Alpha: alpha}
+	if !pfocus || c.Rng.Intn(4) == 0 {
+		pf.MaterialFilter = func(render3d.Material) bool { return pfocus }
+	}
+	a, b := uniform(c), uniform(c)
+	g4, _ := gen(rawU(a), rawU(b))
+	ps := pf.SampleFocus(g4, mat, pp, n, V{})
+	cL, sL := lonUTimes2Pi(b)
+	cD, sD := lon2PiTimesU(a)
+	cosLat := math.Pow(b, 1/(alpha+1))
+	c.Emit(fmt.Sprintf("c19 pfsamp %s %s %s %s %s %s %s %s %s %s", hv(target), hv(pp), b01(pfocus), hv(n), hx(a), hx(cL), hx(sL), hx(cosLat), hx(cD), hx(sD)), ov(ps))
+	pdir := pp.Sub(target).Normalize()
+	for _, sv := range []V{ps, unit(c)} {
+		if !finite(sv) {
+			continue
+		}
+		p1 := math.Pow(pdir.Dot(sv), alpha+1)
+		p2 := math.Pow(p1, 1/(alpha+1)-1)
+		c.Emit(fmt.Sprintf("c19 pfdens %s %s %s %s %s %s %s", hv(target), hv(pp), b01(pfocus), hx(alpha), hv(n), hv(sv), hx(p2)),
+			hx(pf.FocusDensity(mat, pp, n, sv, V{})))
 	}
 }
